@@ -250,13 +250,19 @@ CLAIMED = {
              "the peak of the allocator above the entry arguments, for every call order. The model is run by vm_compute "
              "against compile/link + Evaluator with the three real hooks and against full_expand on random programs; a "
              "reference-interpreter / numpy sweep covers the front end, registers, recursion rejection and the Inverse / "
-             "Controlled constructions. Two defects found by this check were repaired (fix: 569a510, de5d55d); five "
+             "Controlled constructions. The Inverse construction has theorems over data regenerated from lib/std/inverse.py: "
+             "qsub_constant_inverse_pairs_exact (S/Sdag, T/Tdag, SqrtX/SqrtXdag, SqrtY/SqrtYdag and the self-inverse ops compose to the "
+             "identity EXACTLY, powers of 1/sqrt2 included), qsub_inverse_sub_is_an_exact_inverse (reverse order, replaced operations, "
+             "negated phase: the induction step of the recursive resolver, for any operations), "
+             "qsub_inverse_of_a_primitive_sub_undoes_it (its base: constant gates and rotations with any angle), "
+             "qsub_controlled_exact_inverse_undoes / qsub_phase_slip_is_visible_under_control (why the phase is part of the meaning). "
+             "Two defects found by this check were repaired (fix: 569a510, de5d55d); five "
              "controlled-gate resolvers pinned by the repository's own tests are known findings.",
-        design_ref="DESIGN.md section 4 (C19)",
-        note="Trusted: Coq kernel+vm_compute (closed under the global context); hand model of the machine level; "
-             "correspondence harness; AST fingerprints. Partial: front end (builder, resolvers, transpilers), registers, aux "
-             "order of expanded subs and the unitary of Inverse/Controlled/MultiControlled by sweep "
-             "only.",
+        design_ref="DESIGN.md section 4 (C19), 9.2",
+        note="Trusted: Coq kernel+vm_compute (machine-level theorems closed under the global context; the Inverse theorems use the "
+             "Reals axioms + funext); hand model of the machine level; translate/qsub_inverse.py; correspondence harnesses; AST "
+             "fingerprints. Partial: front end (builder, transpilers), registers, aux order of expanded subs and the "
+             "decompositions behind Controlled/MultiControlled by sweep only.",
         technique="Coq proof (induction over evaluation fuel with well-formedness, cache invariants for the memoising "
                   "evaluators) + vm_compute correspondence on random programs + reference-interpreter/numpy sweep"),
     "C20": dict(
